@@ -13,7 +13,7 @@ from ..interp import check_loop
 from ..rules import is_call, is_mcall, mentions
 from ..terms import C, Evaluator, G, P, is_t, mk_elem, mk_proj, show, subterms
 from .C08 import propagate
-from .C36 import environment
+from .C36 import environment, staging_rules
 
 INC = "core/compiler/interpreters/incremental.py"
 DIFFG = G("genjax._src.core.compiler.interpreters.incremental.Diff")
@@ -75,6 +75,7 @@ def run(chk, prog):
     chk.require(okw, "TAG-PAIRING", "incremental.wrapped", "(handler, f, primals, tangents) in order", derived=show(rw.ret)[:160], expected="interpreter.run_interpreter(handler, f, primals, tangents)", where=f"{m.rel}:{inc.lineno}")
     propagate(chk, prog)
     environment(chk, prog)
+    staging_rules(chk, prog)
     # Diff constructors used above
     D = prog.cls("Diff", INC)
     evd = Evaluator(prog)
